@@ -1,5 +1,6 @@
 import Driver.ValidLib
 import GeosModel.Model.Fix.Spec
+import GeosModel.Model.Fix.Holes
 import GeosModel.Base.IM
 /-! Driver for C17 (`drv_c17`), stream `makevalid`:
 `M | <input> | <output or NULL> | method=L|S keep=0|1 ov=<GEOSisValid(out)> idem=<1|0|E|->`.
@@ -107,6 +108,29 @@ partial def inFeatures (vg : VG) : String :=
     (pairsOf es).any fun (a, b) => segRel a.1 a.2 b.1 b.2 == SegRel.overlap
   s!"ring={if badRing vg then 1 else 0} ptring={if ptRing vg then 1 else 0} retrace={if retrace then 1 else 0}"
 
+/-- some polygon ring of the input has faces of positive AND of negative winding number: the condition under which
+`BufferOp::bufferByZero(geom, true)` has two non-empty orientation buffers to put together (the mechanism of the recorded
+"adjacent lobes" finding) -/
+def mixedWinding (ring : List Pt) : Bool :=
+  let segs := segsOf ring
+  let ws : List Int := segs.flatMap fun s =>
+    let ps := splitParams s segs []
+    (ps.zip ps.tail).flatMap fun (l1, l2) =>
+      let lm := Q.mid l1 l2
+      -- `sideWind` counts crossings that END on the side asked for as +1: the two sides use opposite orientation conventions
+      [sideWind ring s lm true, - sideWind ring s lm false]
+  ws.any (· > 0) && ws.any (· < 0)
+
+def lobesOf (vg : VG) : Bool := (Driver.C05.polysOf vg).any fun rings => rings.any mixedWinding
+
+/-- some polygon ring runs over one of its own edges again IN THE SAME DIRECTION (two of its segments overlap collinearly and
+point the same way): a piece of real boundary walked more than once — a spike laid along an edge — as opposed to a zero-width
+cut or free spike, whose two passes have opposite directions (the mechanism of the recorded "retraced edge" finding) -/
+def sameDirRetrace (vg : VG) : Bool := (Driver.C05.polysOf vg).any fun rings => rings.any fun r =>
+  let es := (edges r).filter fun e => e.1 != e.2
+  (pairsOf es).any fun (a, b) => segRel a.1 a.2 b.1 b.2 == SegRel.overlap &&
+    decide ((a.2.x - a.1.x) * (b.2.x - b.1.x) + (a.2.y - a.1.y) * (b.2.y - b.1.y) > 0)
+
 def kvOf (l : List String) : List (String × String) := Driver.C05.kv l
 
 def hptStr (p : HPt) : String := s!"{p.x}/{p.w},{p.y}/{p.w}"
@@ -145,7 +169,7 @@ def check (line : String) : String :=
           let finiteVerts : List Pt := finiteVertsOf vi
           let checks : List (Unit → Option String) := [
             fun _ => if outFinite then none else some "bad nonfinite-output",
-            fun _ => if vOut.valid then none else some s!"bad output-invalid code={codesStr vOut.codes}",
+            fun _ => if vOut.valid then none else some s!"bad output-invalid code={codesStr vOut.codes} lobes={if lobesOf vi then 1 else 0}",
             fun _ => if get "ov" == "1" then none else some s!"bad isvalid-disagrees-with-ref ov={get "ov"}",
             fun _ => if po.dim ≤ pi.dim then none else some s!"bad dimension in={pi.dim} out={po.dim}",
             fun _ => if envWithin tol (envOf po.vertices) (envOf finiteVerts) then none else some "bad envelope",
@@ -164,7 +188,7 @@ def check (line : String) : String :=
               if !isStruct || !inFinite then none else
               match areaMismatch 24 pi.polys po.polys with
               | none => none
-              | some x => some s!"bad area sample={hptStr x} expected={if expectedIn x (pi.polys.map prepPolygon) then 1 else 0}",
+              | some x => some s!"bad area sample={hptStr x} expected={if expectedIn x (pi.polys.map prepPolygon) then 1 else 0} rsame={if sameDirRetrace vi then 1 else 0}",
             fun _ =>
               -- "collapses are kept exactly when requested" inside collections (regression check of finding F5): where the
               -- model (`fix`) and the behaviour before the fix of fixCollection (`fixDropping`) part, the implementation must
@@ -194,9 +218,39 @@ def check (line : String) : String :=
     | _ => "parse-error-input"
   | _ => "bad-line"
 
+/-- stream `hole-class`: `H | <polygon> | <digits>`: the lists the real `classifyHoles` built against `Holes.classifyLoop` with the
+exact oracle `holeMeetsShell` (closed non-zero-winding regions of the raw rings have a common point) -/
+def checkHoleClass (line : String) : String :=
+  match splitBar (Driver.tokens line) with
+  | [["H"], ti, obs] =>
+    match Driver.GTreeIO.parseGeom ti with
+    | some (gi, []) =>
+      if !(ordsOf gi.g).all F64.isFinite then "skip nonfinite" else
+      let (_, toI) := scaleG gi.g
+      match toVG toI gi.g with
+      | some (.polygon (sh :: hs)) =>
+        let shell := sh.pts
+        let holes := hs.map (·.pts)
+        let model : String :=
+          if !ringHasArea shell then "shell-empty"
+          else if holes.isEmpty then "-"
+          else
+            let idx := List.range holes.length
+            let c := Fix.Holes.classifyLoop (fun i => holeMeetsShell shell (holes.getD i [])) idx
+            String.mk (idx.map fun i => if c.1.contains i then '1' else '0')
+        let impl := obs.headD "?"
+        if impl == model then "ok"
+        else
+          let vg : VG := .polygon (sh :: hs)
+          s!"bad hole-class impl={impl} model={model} method=S keep=0 finite=1 rsame={if sameDirRetrace vg then 1 else 0} lobes={if lobesOf vg then 1 else 0}"
+      | _ => "skip not-a-polygon"
+    | _ => "parse-error-input"
+  | _ => "bad-line"
+
 end Driver.C17
 
 def main (args : List String) : IO UInt32 := do
   match args with
   | ["makevalid"] => Driver.loop (← IO.getStdin) (← IO.getStdout) Driver.C17.check; return 0
-  | _ => IO.eprintln "usage: drv_c17 makevalid"; return 2
+  | ["hole-class"] => Driver.loop (← IO.getStdin) (← IO.getStdout) Driver.C17.checkHoleClass; return 0
+  | _ => IO.eprintln "usage: drv_c17 makevalid|hole-class"; return 2
